@@ -13,9 +13,9 @@ From Coq Require Import List NArith Arith Bool Lia.
 Import ListNotations.
 From NV Require Import Gen.WireConsts FSTree.Wire Wire.Fast.
 
-(* one parsed field: number, wire type, [from, vfrom, to) relative to the message start,
-   varint value (0 for other types) *)
-Record frec := mkF { f_num : N; f_typ : N; f_from : nat; f_vfrom : nat; f_to : nat; f_val : N }.
+(* one parsed field: number, wire type, [from, vfrom, to) relative to the message start, tag
+   length, varint value (0 for other types) *)
+Record frec := mkF { f_num : N; f_typ : N; f_from : nat; f_tagln : nat; f_vfrom : nat; f_to : nat; f_val : N }.
 
 (* [b] = rest of the message, [off] = its offset in the message *)
 Fixpoint parse_fields (fuel : nat) (b : bytes) (off : nat) : option (list frec) :=
@@ -32,10 +32,10 @@ Fixpoint parse_fields (fuel : nat) (b : bytes) (off : nat) : option (list frec) 
         let cont (vlen hdr : nat) (v : N) :=
             match parse_fields fu (skipn (hdr + vlen) b1) (off + n + hdr + vlen) with
             | None => None
-            | Some r => Some (mkF num typ off (off + n + hdr) (off + n + hdr + vlen) v :: r)
+            | Some r => Some (mkF num typ off n (off + n + hdr) (off + n + hdr + vlen) v :: r)
             end in
         if (typ =? ty_varint)%N then
-          match parse_varint b1 with VOk u m => cont 0 m u | VErr _ => None end
+          match parse_varint b1 with VOk u m => cont m 0 u | VErr _ => None end
         else if (typ =? ty_bytes)%N then
           match parse_len b1 with LOk ln m => cont ln m 0%N | LErr => None end
         else if (typ =? ty_fixed64)%N then
@@ -187,14 +187,21 @@ Fixpoint order_ok (sch : schema) (prev : N) (nums : list N) : bool :=
     && order_ok sch n r
   end.
 
-(* [b] is exactly the canonical encoding of the fields it parses to, ordered, typed *)
+(* [b] parses structurally, its fields are typed as the schema says and ordered as the stable
+   encoder orders them *)
 Definition wf_msg (sch : schema) (b : bytes) : bool :=
   match parse_msg b with
   | None => false
-  | Some fs =>
-    bytes_eqb (enc_fields (map (to_fld b) fs)) b
-    && forallb (typed_ok sch) fs
-    && order_ok sch 0%N (map f_num fs)
+  | Some fs => forallb (typed_ok sch) fs && order_ok sch 0%N (map f_num fs)
+  end.
+
+(* in addition [b] is byte for byte the canonical encoding of the fields it parses to (minimal
+   varints); used by the correspondence check only: for such inputs re-marshalling the real
+   decoder's result must give the located bytes back *)
+Definition canonical_msg (b : bytes) : bool :=
+  match parse_msg b with
+  | None => false
+  | Some fs => bytes_eqb (enc_fields (map (to_fld b) fs)) b
   end.
 
 Definition field_of (b : bytes) (num : N) : option bytes :=
@@ -223,6 +230,11 @@ Definition wf_object (b : bytes) : bool :=
   negb (match b with [] => true | _ => false end)
   && wf_msg obj_schema b
   && match field_of b fld_object_hdr with None => true | Some h => wf_header h end.
+
+Definition canonical_header (h : bytes) : bool :=
+  canonical_msg h && match field_of h fld_hdr_split with None => true | Some s => canonical_msg s end.
+Definition canonical_object (b : bytes) : bool :=
+  canonical_msg b && match field_of b fld_object_hdr with None => true | Some h => canonical_header h end.
 
 (* ---- canonical encoder, record level (neofs-sdk-go proto/object/encoding.go) -------- *)
 
